@@ -150,3 +150,49 @@ Theorem no_reopen_refuted :
   let s := frun false content offs finit [FFork 0 1; FSeek 0 0; FSeek 1 1; FRead 0] in
   fs_out s = [(0, 0, [98%Z])] /\ read_at content 0 = [97%Z].
 Proof. vm_compute. split; reflexivity. Qed.
+
+(* ------------------------------------------------------------------ progress of a single access (session 5)
+   Safety above says every line that is returned is right; these say that an access is never refused or lost, whatever
+   the other processes did in between: a live process can always seek to an indexed item, and once it has, its read is
+   accepted in EVERY reachable state and appends exactly one record - (that pid, that item, the line at that offset). *)
+Lemma rinv_run content offs sched : forall s0, RInv content offs s0 -> RInv content offs (frun true content offs s0 sched).
+Proof.
+  induction sched as [|e r IH]; intros s0 I; simpl; auto. apply IH.
+  destruct (fstep true content offs s0 e) eqn:E; auto. eapply rinv_step; eauto.
+Qed.
+
+Theorem read_enabled_exact content offs s p pr i :
+  RInv content offs s -> get_proc s p = Some pr -> fp_pending pr = Some i ->
+  exists s' off, fstep true content offs s (FRead p) = Some s' /\ nth_error offs i = Some off
+    /\ fs_out s' = fs_out s ++ [(p, i, read_at content off)]
+    /\ (exists pr', get_proc s' p = Some pr' /\ fp_pending pr' = None /\ fp_h pr' = fp_h pr).
+Proof.
+  intros I Hg Hp. pose proof Hg as Hg'. rewrite get_proc_getp in Hg'.
+  destruct (r_pend _ _ _ I p pr i Hg' Hp) as (Ho & off & Hn & Hpos).
+  unfold fstep. rewrite Hg, Hp. unfold reopened. rewrite Ho, Nat.eqb_refl. cbn [negb andb].
+  eexists. exists off. split; [reflexivity|]. cbn [fs_out]. rewrite Hpos. split; [exact Hn|]. split; [reflexivity|].
+  eexists. rewrite get_proc_getp. cbn [fs_procs]. rewrite getp_set_same. split; [reflexivity|]. split; reflexivity.
+Qed.
+
+Theorem seek_enabled content offs s p pr i off :
+  get_proc s p = Some pr -> nth_error offs i = Some off ->
+  exists s' pr', fstep true content offs s (FSeek p i) = Some s' /\ get_proc s' p = Some pr' /\ fp_pending pr' = Some i
+    /\ fs_out s' = fs_out s.
+Proof.
+  intros Hg Hn. unfold fstep. rewrite Hg, Hn. destruct (reopened true s p (fp_h pr)) as [h ofds].
+  eexists. eexists. split; [reflexivity|]. rewrite get_proc_getp. cbn [fs_procs fs_out]. rewrite getp_set_same.
+  split; [reflexivity|]. split; reflexivity.
+Qed.
+
+(* lifted to every reachable state: after any schedule, a pending read of any process is accepted and exact *)
+Theorem fork_read_progress content offs sched p pr i :
+  let s := frun true content offs finit sched in
+  get_proc s p = Some pr -> fp_pending pr = Some i ->
+  exists s' off, fstep true content offs s (FRead p) = Some s' /\ nth_error offs i = Some off
+    /\ fs_out s' = fs_out s ++ [(p, i, read_at content off)].
+Proof.
+  intros s Hg Hp.
+  destruct (read_enabled_exact content offs s p pr i (rinv_run content offs sched finit (rinv_init content offs)) Hg Hp)
+    as (s' & off & H1 & H2 & H3 & _).
+  exists s', off. auto.
+Qed.
